@@ -29,6 +29,21 @@ impl Code for Option<i64> {
         self.unwrap_or(NULL)
     }
 }
+impl Code for Tok {
+    fn code(&self) -> i64 {
+        self.code
+    }
+}
+impl SliceItems for &[Tok] {
+    fn items(self) -> Vec<i64> {
+        self.iter().map(|t| t.code).collect()
+    }
+}
+impl SliceItems for std::collections::vec_deque::Iter<'_, Tok> {
+    fn items(self) -> Vec<i64> {
+        self.map(|t| t.code).collect()
+    }
+}
 
 /// the content of a window slice, whatever the backend's slice type is
 pub trait SliceItems {
@@ -152,6 +167,8 @@ where
     let mut rec = Recorder::new();
     let len = v.len();
     let path: Path = to.into();
+    tok_faults_take();
+    tok_guard(true);
     let out = catch(|| {
         let rec = &mut rec;
         let mut buf = if path == Path::To { Some(O::uninit(len)) } else { None };
@@ -227,6 +244,9 @@ where
             _ => panic!("driver returned both or neither of buffer and value"),
         }
     });
+    tok_guard(false);
+    let tf = tok_faults_take();
+    let out = if tf.is_empty() { out } else { Err(format!("ELEMENT-OWNERSHIP: {}", tf[0])) };
     Run { calls: rec.calls, out, log: take_log() }
 }
 
@@ -242,6 +262,8 @@ where
     let mut rec = Recorder::new();
     let len = v.len();
     let path: Path = to.into();
+    tok_faults_take();
+    tok_guard(true);
     let out = catch(|| {
         let rec = &mut rec;
         let mut buf = if path == Path::To { Some(O::uninit(len)) } else { None };
@@ -285,6 +307,9 @@ where
             _ => panic!("driver returned both or neither of buffer and value"),
         }
     });
+    tok_guard(false);
+    let tf = tok_faults_take();
+    let out = if tf.is_empty() { out } else { Err(format!("ELEMENT-OWNERSHIP: {}", tf[0])) };
     Run { calls: rec.calls, out, log: take_log() }
 }
 
@@ -302,6 +327,8 @@ where
     let mut rec = Recorder::new();
     let len = v.len();
     let path: Path = to.into();
+    tok_faults_take();
+    tok_guard(true);
     let out = catch(|| {
         let rec = &mut rec;
         let mut buf = if path == Path::To { Some(O::uninit(len)) } else { None };
@@ -334,6 +361,9 @@ where
             _ => panic!("driver returned both or neither of buffer and value"),
         }
     });
+    tok_guard(false);
+    let tf = tok_faults_take();
+    let out = if tf.is_empty() { out } else { Err(format!("ELEMENT-OWNERSHIP: {}", tf[0])) };
     Run { calls: rec.calls, out, log: take_log() }
 }
 
@@ -547,6 +577,12 @@ pub fn for_each_cell(case: &Case, full: bool, mut f: impl FnMut(&str, Run)) {
     }
 
     cells!("Vec", i64, xs.clone(), ys.clone(), false);
+    // elements that are Clone but not Copy, with drop accounting (tok.rs)
+    cells!("Vec<Tok>", Tok, tok_series(&xs), tok_series(&ys), false);
+    if full {
+        cells!("VecDeque<Tok>", Tok, tok_series(&xs).into_iter().collect::<VecDeque<Tok>>(), tok_series(&ys).into_iter().collect::<VecDeque<Tok>>(), false, false);
+        cells!("Arc<Vec<Tok>>", Tok, Arc::new(tok_series(&xs)), Arc::new(tok_series(&ys)), false);
+    }
     cells!("Spy", i64, Spy::new(1, xs.clone()), Spy::new(2, ys.clone()), true);
     cells!("Vec+Spy2", i64, xs.clone(), Spy::new(2, ys.clone()), true);
     cells!("VecDeque", i64, rotated_deque(&xs, 0), rotated_deque(&ys, 0), false);
